@@ -98,8 +98,11 @@ KF_C07_late_arrival_pause(G) ==
 (* the re-executed tasks succeed and the workflow ends succeeded where the clean run fails      *)
 KF_C17_partial_rerun_succeeds(G) ==
   /\ G.kind = "rerun"
-  /\ \A a \in Members(G, "rerun") : Fin(G, a).partial /\ Fin(G, a).wf = "succeeded"
-  /\ \A b \in Members(G, "clean") : Fin(G, b).wf = "failed"
+  /\ \A a \in Members(G, "rerun") : Fin(G, a).partial
+  /\ \/ /\ \A a \in Members(G, "rerun") : Fin(G, a).wf = "succeeded"
+        /\ \A b \in Members(G, "clean") : Fin(G, b).wf = "failed"
+     \* ... or it ends failed again and what the standing failure published stands as well
+     \/ \A a \in Members(G, "rerun") : Fin(G, a).wf = "failed"
 
 (* S14: executions of the first run that the rerun supersedes (some task has run more often than *)
 (* any clean run needs) keep their side effects: published contexts, terminal flags, staged joins  *)
@@ -107,6 +110,9 @@ KF_C17_first_run_side_effects(G) ==
   /\ G.kind = "rerun"
   /\ \E a \in Members(G, "rerun") : \E t \in DOMAIN Fin(G, a).execd :
         \A b \in Members(G, "clean") : Fin(G, a).execd[t] > Cnt(Fin(G, b).execd, t)
+  \* the direct successors of the superseded executions are reset by the rerun; what is left behind
+  \* lies deeper (get_task_sequence is one level deep) or is staging
+  /\ \A a \in Members(G, "rerun") : Fin(G, a).stale_min_depth >= 2
 
 GroupSignatures(G) ==
   (IF G.kind = "inspect" /\ G.expect.cat = "context" /\ G.expect.pos \in {"rwhen", "rcount", "rdelay"}
